@@ -218,6 +218,22 @@ def powOp (args : List String) : String :=
   | some [x] => toString (Float.pow x.toFloat (1 / 2.3)).toUInt64.toNat
   | _ => "ERR:proto"
 
+/-- `phivec_run_m x a`: `phi_vector(x, a, first a primes, PiTable(top))` of src/phi_vector.cpp on its real cache
+    (`phiVectorS`), `top = max(primes[a], isqrt(x))`; printed twice (the harness prints its copy and the library's) -/
+def vecRunOp (args : List String) : String :=
+  match natArgs args with
+  | some [x, a] =>
+    if x ≥ 2 ^ 62 || a < 1 || a > 2000000 then "ERR:domain" else
+    let pr := nPrimes a
+    let top := max (pr.getD (a - 1) 0) (Nat.sqrt x)
+    let pa := piArr top
+    let E : PhiEnv := { prime := primeFn pr, piSize := top + 1, piTab := fun v => pa.getD v 0, tiny := tables.phiTiny,
+                        cache := { maxX := 0, maxA := 0, val := fun _ _ => 0 } }
+    let v := phiVectorS E (pa.getD x 0) (Nat.sqrt x) x a
+    let s := ",".intercalate (v.map toString)
+    s!"{top}|{s}|{s}"
+  | _ => "ERR:proto"
+
 end PhiCacheDrv
 
 def phiCacheOps : String → Option (List String → String)
@@ -228,6 +244,7 @@ def phiCacheOps : String → Option (List String → String)
   | "phicache_rec_m" => some PhiCacheDrv.recOp
   | "phicache_main_m" => some PhiCacheDrv.mainOp
   | "phicache_pow" => some PhiCacheDrv.powOp
+  | "phivec_run_m" => some PhiCacheDrv.vecRunOp
   | _ => none
 
 end Pc.Drv
